@@ -877,7 +877,9 @@ pub fn step(
             // a removal index outside the tree: rejecting the whole batch (state unchanged) and
             // ignoring that index are both accepted (DESIGN Appendix B, open point)
             // likewise a removal-only batch whose (irrelevant) start lies beyond the capacity
-            let ambiguous = matches!(&rop, ROp::Batch(st, v, r) if r.iter().any(|x| *x >= m.cap()) || (v.is_empty() && *st > m.cap()));
+            let ambiguous = matches!(&rop, ROp::Batch(st, v, r) if r.iter().any(|x| *x >= m.cap()) || (v.is_empty() && *st > m.cap()))
+                // initialisation with no leaves: "nothing to do" (rejected, unchanged) or a fresh tree
+                || matches!(&rop, ROp::Init(v) if v.is_empty());
             if verdict != Verdict::Rejected && had_effect && !ambiguous {
                 // a valid request was refused
                 let unchanged = compare(b, m, focus, &touched).is_ok();
